@@ -33,6 +33,11 @@ TVARIANT = {
     "lib/b_test.go": "package lib_test\n\nimport \"m/lib\"\n\nfunc use(h *lib.TH) {\n\th.X = 1\n\tlib.HelperOnly()\n}\n",
     "app/app.go": "package app\n\nimport \"m/lib\"\n\nfunc Use(t *lib.T) {\n\tt.X = 2\n}\n",
     "zapp/zapp.go": "package zapp\n\nimport \"m/lib\"\n\nfunc Use(t *lib.T) {\n\tt.X = 3\n}\n",
+    # two importers with the same package name (allowed by bare name) and a third one that is not allowed
+    "core/core.go": "package core\n\n// Reset is for service packages.\n// @packageonly svc\nfunc Reset() {}\n\n// K is for service packages.\n// @packageonly svc, m/zo\ntype K struct{ X int }\n",
+    "x/svc/s.go": "package svc\n\nimport \"m/core\"\n\nfunc Run() {\n\tcore.Reset()\n\t_ = core.K{X: 1}\n}\n",
+    "y/svc/s.go": "package svc\n\nimport \"m/core\"\n\nfunc Run() {\n\tcore.Reset()\n\t_ = core.K{X: 2}\n}\n",
+    "zo/o.go": "package zo\n\nimport \"m/core\"\n\nfunc Run() {\n\tcore.Reset()\n\t_ = core.K{X: 3}\n}\n",
     "other/o.go": "package other\n\n// O is unrelated.\n// @immutable\ntype O struct{ X int }\n\nfunc f(o *O) {\n\to.X = 4\n}\n",
 }
 
@@ -184,13 +189,16 @@ def run(ctx):
     if fail:
         ctx.violation("black-box run failed: %s" % fail, {"kind": "blackbox", "args": ["./..."]})
         base = {}
-    pk = ["./d", "./u", "./w", "./lib/...", "./app", "./zapp", "./other"]
+    pk = ["./d", "./u", "./w", "./lib/...", "./app", "./zapp", "./other", "./core", "./x/svc", "./y/svc", "./zo"]
+    if not base.get("zo"):
+        raise vlib.ToolError("the black-box module reports nothing in m/zo (vacuous)")
     variants = [(["./..."], None, ()), (["./..."], {"GOMAXPROCS": "1"}, ()), (["./..."], {"GOMAXPROCS": "16"}, ()), (["./..."], None, ("-debug=p",))]
-    perms = list(itertools.permutations(pk))
-    rng.shuffle(perms)
-    for pm in perms[: (40 if thorough else 6)]:
-        variants.append((list(pm), None, ()))
-    for sub in (["./lib/..."], ["./lib/...", "./app"], ["./lib/...", "./zapp"], ["./w"], ["./u", "./other"], ["./lib/...", "./other"]):
+    for _k in range(40 if thorough else 6):
+        pm = list(pk)
+        rng.shuffle(pm)
+        variants.append((pm, None, ()))
+    variants.append((list(reversed(pk)), None, ()))
+    for sub in (["./y/svc"], ["./x/svc"], ["./zo"], ["./y/svc", "./x/svc"], ["./y/svc", "./zo"], ["./zo", "./x/svc", "./y/svc"], ["./lib/..."], ["./lib/...", "./app"], ["./lib/...", "./zapp"], ["./w"], ["./u", "./other"], ["./lib/...", "./other"]):
         variants.append((sub, None, ()))
         variants.append((sub, None, ("-debug=p",)))
     if thorough:
@@ -209,7 +217,7 @@ def run(ctx):
             # every package that is named in this run must get exactly the diagnostics of the reference run
             named_dirs = set()
             for a in args:
-                named_dirs |= {"d", "u", "w", "lib", "app", "zapp", "other"} if a == "./..." else {a.strip("./").split("/")[0]}
+                named_dirs |= {"d", "u", "w", "lib", "app", "zapp", "other", "core", "x", "y", "zo"} if a == "./..." else {a.strip("./").split("/")[0]}
             for dpk in named_dirs:
                 if got.get(dpk, set()) != base.get(dpk, set()):
                     g2, f2 = bb(args, env, flags)
